@@ -114,6 +114,7 @@ func (c *CopyCommand) execute(tow io.Writer) (err error) {
 
 func (c *CopyCommand) copyOneFile(srcRelPath, destRelPath string, tow io.Writer) (err error) {
 	now := whispertool.TimestampFromStdTime(time.Now())
+	now = verifNow(now)
 	var until whispertool.Timestamp
 	if c.Until == 0 {
 		until = now
